@@ -74,7 +74,12 @@ EVIDENCE_NOTES = [
     "counter and the swap removal, epoll batch with the signal at any position), timer interval 0 and deletion of the loop "
     "right after run() returns; theorems clear_pass_releases_flagged_contexts and "
     "shutdown_then_exit_before_dispatch_is_cleared; all invariants re-proved over the extended step function",
-    "NOT re-proved over the extended model (left unfinished in this round): the two liveness theorems under fair schedules "
+    "round 7: liveness restored in part over the extended model: exit_returns_solo (C14/ProofsSolo.v) - from any reachable "
+    "state with an exit pending, the loop thread ranked and the handle's mutex free or its own, the loop thread's own steps "
+    "alone reach the return of run() and the end of the thread within rank steps (with exit_returns_variant: a foreign step "
+    "raises the rank by at most 2, so finitely many foreign steps delay the return by a bounded number of loop steps); "
+    "witness exit_returns_solo_witness (rank 79, 14 steps)",
+    "NOT re-proved over the extended model (left unfinished in round 5): the two liveness theorems under fair schedules "
     "(exit_returns_fair, wake_served_fair) that earlier rounds had; the safety invariants, the accounting theorems and the "
     "variant (rank strictly decreasing on the way out, incl. callback scripts, close dispatches, timer callback) hold in "
     "full; a theorem 'no library call on the loop after its deletion' is not mechanised either: the model counts such "
@@ -731,7 +736,7 @@ def tally(dist, case, lines):
 
 
 MANIFEST = {
-    "level_text": ("(round 5: liveness under fair schedules not re-proved over the extended model, see evidence notes) "
+    "level_text": ("(liveness over the extended model: solo form exit_returns_solo + variant; the fair-round forms of round 4 not re-proved, see evidence notes) "
                    "Coq theorems over an executable interleaving model (any number of threads, every schedule) of "
                    "muggle_evloop_run / handle_wakeup / muggle_evloop_exit / wakeup and the socket handle's hand-over "
                    "queue: no wake-up request is lost (the loop never sleeps with an unserved request), every context "
